@@ -27,3 +27,6 @@ pub mod datamodel;
 pub mod event_io_processor;
 pub mod expression_engine;
 pub mod test;
+
+#[cfg(rfsm_verif)]
+pub mod verif;
